@@ -9,7 +9,8 @@ CONSTANTS
   Depth = 30
   CodeIds = {1, 2}
   Blocks = TRUE
-  Ops = {"setbalance", "setvalue", "deletevalue", "initcontract", "touch", "setblock", "deploy", "accept", "snapshot", "reset", "clearcache", "flush", "reload"}
+  MaxDep = 2
+  Ops = {"setbalance", "setvalue", "deletevalue", "initcontract", "touch", "setblock", "deploy", "accept", "snapshot", "reset", "clearcache", "flush", "reload", "adddeposit", "withdraw", "withdrawall", "paysteps"}
   SnapSlots = {1, 2}
   HistOn = TRUE
 INVARIANT Emit
